@@ -530,11 +530,96 @@ func run(c *runner.Ctx) {
 	}
 	// named family
 	c.Space(pfx + "named")
+	markerLookAlikes(c)
 	for i, cs := range namedCases() {
 		if !c.Take() {
 			continue
 		}
 		compare(c, cs.v, fmt.Sprintf("named#%d %s", i, cs.desc), &nt, cs.outer)
+	}
+}
+
+// Cart: fields whose rule is a call-supplied function with a name that merely starts like one of the two markers.
+// Such a field is not marked: its function runs on it (when it is not empty), and its sub-objects are not entered.
+type Cart struct {
+	Gifts  []Leaf          `valid:"required_with=Coupon"`
+	Bonus  *Leaf           `valid:"exists_in_book"`
+	Extra  Leaf            `valid:"requiredx|m"`
+	Plain  *Leaf           `valid:"existing,exist_"`
+	ByKey  map[string]Leaf `valid:"required2"`
+	Empty  []Leaf          `valid:"required_with=Coupon"`
+	Real   *Leaf           `valid:"exist"`
+	Must   []Leaf          `valid:"required"`
+	Coupon string
+}
+
+func markerLookAlikes(c *runner.Ctx) {
+	c.Space("rule-names-that-start-like-a-marker")
+	names := []string{"required_with", "exists_in_book", "requiredx", "existing", "exist_", "required2"}
+	mk := func(text string) valid.CommonValidFn {
+		return func(errBuf *strings.Builder, validName, objName, fieldName string, tv reflect.Value) {
+			errBuf.WriteString(valid.GetJoinValidErrStr(objName, fieldName, "", valid.ExplainEn, text))
+		}
+	}
+	for _, leaf := range []Leaf{leafBAD, leafOK} {
+		for _, silent := range []bool{true, false} {
+			for _, top := range []int{0, 1, 2} {
+				if !c.Take() {
+					continue
+				}
+				leaf := leaf
+				fns := valid.Name2FnMap{}
+				mfns := map[string]walk.Fn{}
+				for _, n := range names {
+					n := n
+					if silent {
+						fns[n] = func(errBuf *strings.Builder, validName, objName, fieldName string, tv reflect.Value) {}
+						mfns[n] = func(rule, obj, field string, v reflect.Value) string { return "" }
+					} else {
+						fns[n] = mk("ran-" + n)
+						mfns[n] = func(rule, obj, field string, v reflect.Value) string {
+							return walk.ValueClause(obj, field, "", "ran-"+n)
+						}
+					}
+				}
+				cart := Cart{Gifts: []Leaf{leaf}, Bonus: &leaf, Extra: leaf, Plain: &leaf, ByKey: map[string]Leaf{"k": leaf}, Real: &leaf, Must: []Leaf{leaf, leafOK}}
+				var src interface{} = &cart
+				switch top {
+				case 1:
+					src = []Cart{cart, {}}
+				case 2:
+					src = map[string]*Cart{"x": &cart}
+				}
+				var err error
+				pan, msg, site := runner.Guard(func() { err = valid.StructForFns(src, nil, fns) })
+				exp := walk.Struct(src, walk.Opts{CallFns: mfns})
+				c.Done(true, 1)
+				got := ""
+				if err != nil {
+					got = err.Error()
+				}
+				det := map[string]interface{}{"graph": fmt.Sprintf("Cart (top-level form %d) holding Leaf%+v; functions silent=%v", top, leaf, silent), "expected": exp.Error(), "actual": got}
+				if pan {
+					det["panic"] = msg
+					c.Violation("panic@"+site+"/marker-look-alike", det)
+					continue
+				}
+				a, b := errparse.Split(got), exp.Multiset()
+				sort.Strings(a)
+				sort.Strings(b)
+				if strings.Join(a, "\x00") != strings.Join(b, "\x00") {
+					kind := "marker-look-alike/different"
+					if len(a) > len(b) {
+						kind = "marker-look-alike/unmarked-sub-object-entered-or-reported"
+					} else if len(a) < len(b) {
+						kind = "marker-look-alike/clause-missing"
+					}
+					c.Violation(kind, det)
+					continue
+				}
+				c.Outcome("ok")
+			}
+		}
 	}
 }
 
